@@ -193,7 +193,7 @@ class _Stop(Exception):
     pass
 
 
-def _cli_members(tool, xs, fs_):
+def _cli_members(tool, xs, fs_, platforms=("p",), select=()):
     import contextlib
     import io
     import json
@@ -212,6 +212,7 @@ def _cli_members(tool, xs, fs_):
         seen["members"] = sorted(os.path.relpath(str(f), scratch) for f in codebase)
         seen["contains"] = sorted(n for n in CLI_FILES if os.path.join(scratch, n) in codebase)
         seen["platforms"] = sorted(configuration)
+        seen["entries"] = {k: [os.path.relpath(e["file"], scratch) for e in v] for k, v in configuration.items()}
         raise _Stop()
 
     log = logging.getLogger("codebasin")
@@ -226,10 +227,13 @@ def _cli_members(tool, xs, fs_):
         with open(os.path.join(scratch, "analysis.toml"), "w") as f:
             if fs_:
                 f.write("[codebase]\nexclude = [%s]\n\n" % ", ".join(json.dumps(x) for x in fs_))
-            f.write('[platform.p]\ncommands = "cc.json"\n')
+            for name in platforms:
+                f.write('[platform.%s]\ncommands = "cc.json"\n\n' % name)
         argv = []
         for x in xs:
             argv += ["-x", x]
+        for name in select:
+            argv += ["-p", name]
         argv.append("analysis.toml")
         os.chdir(scratch)
         finder.find = fake_find
